@@ -76,6 +76,20 @@ Definition in_list (b : bytes) (l : list bytes) : bool := existsb (bytes_eqb b) 
    server-to-server streams (empty on client-to-server streams) *)
 Record cfg := mkcfg { c_ns : bytes; c_from : bytes }.
 
+(* the parameters of an established stream: the content name space of OUR
+   output stream (jabber:client / jabber:server, chosen by the negotiator from
+   the S2S bit), the default name space of the PEER's stream header (another
+   content name space if the peer answered with one; the framing name space
+   urn:ietf:params:xml:ns:xmpp-framing on a WebSocket session), whether the
+   session uses WebSocket framing, and the local address *)
+Record stream_params := mkparams { p_out_ns : bytes; p_in_ns : bytes; p_framing : bool; p_local : bytes }.
+
+(* negotiateSession: stanzaEncoder{ns: s.out.Info.XMLNS}; from = LocalAddr iff
+   s.out.Info.XMLNS == jabber:server. Neither the peer's header name space nor
+   the framing plays a part. *)
+Definition cfg_of (p : stream_params) : cfg :=
+  mkcfg (p_out_ns p) (if bytes_eqb (p_out_ns p) so_ns_server then p_local p else []).
+
 Definition s_id : bytes := str "id".
 Definition s_from : bytes := str "from".
 Definition s_xmlns : bytes := str "xmlns".
@@ -619,13 +633,13 @@ Definition finished (g : gstate) : bool :=
    in the order in which they held the output lock, the ids the library drew,
    the observed log at the encoder/connection and the observed results. *)
 Record scase := mksc {
-  sc_ns : bytes; sc_from : bytes; sc_ids : list bytes; sc_calls : list call;
+  sc_params : stream_params; sc_ids : list bytes; sc_calls : list call;
   sc_log : list ev; sc_res : list (list res) }.
 
 Definition is_nil {A} (l : list A) : bool := match l with [] => true | _ => false end.
 
 Definition scase_ok (x : scase) : bool :=
-  let '(o, rs) := run_calls (mkcfg (sc_ns x) (sc_from x)) (ost0 (sc_ids x)) (sc_calls x) in
+  let '(o, rs) := run_calls (cfg_of (sc_params x)) (ost0 (sc_ids x)) (sc_calls x) in
   list_eqb ev_eqb (o_log o) (sc_log x) && list_eqb (list_eqb res_eqb) rs (sc_res x)
   && is_nil (o_ids o).
 
